@@ -56,6 +56,11 @@ def cases(tier, seed):
         for free_g in (1, 2, 3, 4):
             for sizes in ([1], [1, 1], [1, 2], [2, 1], [1, 1, 2], [3], [1, 3]):
                 yield {"k": "xfer", "skind": skind, "free": free_g, "sizes": sizes}
+    # batches that carry files without any data (0 = an empty text file, "0ml" = a machine-language file of no bytes): each still takes a
+    # directory slot and one granule ("A 0-byte file will always take 1 granule on disk"); only a disk can be the source of such a file
+    for free_g in (1, 2, 3):
+        for sizes in ([0], ["0ml"], [0, 1], [1, 0], [1, 0, 1], [0, 0], ["0ml", 0, 1]):
+            yield {"k": "xfer", "skind": "dsk", "free": free_g, "sizes": sizes}
     # synthetic configurations
     places = {"lowest": lambda f: list(range(f)), "highest": lambda f: list(range(68 - f, 68)),
               "around27": lambda f: sorted(range(68), key=lambda g: (abs(g - 27), g))[:f],
@@ -217,21 +222,24 @@ def check_case(case):
             host = dskfs.write([{"name": "OWNER", "ext": "BIN", "type": 1, "dtype": 0xFF, "stream": bytes((len(used) - 1) * 2304 + 5), "chain": used, "slot": 0}])
             tgt = os.path.join(td, "host.dsk")
             open(tgt, "wb").write(host)
-            specs = [c07.fspec("ML", k * 2304 - 10 - 9, "N{}".format(i), pat="ramp7") for i, k in enumerate(case["sizes"])]
+            specs = [c07.fspec("ML", k * 2304 - 10 - 9, "N{}".format(i), pat="ramp7") if k not in (0, "0ml") else
+                     c07.fspec("ML" if k == "0ml" else "ASC", 0, "N{}".format(i), "BIN") for i, k in enumerate(case["sizes"])]
+            gsizes = [k if k not in (0, "0ml") else 1 for k in case["sizes"]]
             src = os.path.join(td, "src." + case["skind"])
             if case["skind"] == "cas":
                 open(src, "wb").write(tape.write([dict(name=x["name"], type=2, dtype=0, load=x["load"], exec=x["exec"], data=C.pattern(x["n"], x["pat"])) for x in specs]))
             else:
                 g, fl = 0, []
                 for x in specs:
-                    need = (x["n"] + 10) // 2304 + 1
-                    fl.append({"name": x["name"], "ext": "BIN", "type": 2, "dtype": 0, "chain": list(range(g, g + need)),
-                               "stream": dskfs.make_stream("ml", C.pattern(x["n"], x["pat"]), x["load"], x["exec"])})
+                    ml = x["type"] == 2
+                    need = (x["n"] + (10 if ml else 0)) // 2304 + 1
+                    fl.append({"name": x["name"], "ext": "BIN", "type": x["type"], "dtype": x["dtype"], "chain": list(range(g, g + need)),
+                               "stream": dskfs.make_stream("ml", C.pattern(x["n"], x["pat"]), x["load"], x["exec"]) if ml else b""})
                     g += need
                 open(src, "wb").write(dskfs.write(fl))
             status, out = cli.file_util(src, to_dsk=tgt, append=True)
             after = open(tgt, "rb").read()
-            fits = sum(case["sizes"]) <= case["free"]
+            fits = sum(gsizes) <= case["free"]
             steps = 1
             if fits:
                 if status != 0:
@@ -240,8 +248,8 @@ def check_case(case):
                     names = [e["name"].rstrip() for e in dskfs.entries(after)]
                     if names != [b"OWNER"] + [x["name"].encode() for x in specs] or dskfs.fsck(after):
                         bad(cell, "the batch is not on the host image", [x["name"] for x in specs], str(names)[:100])
-                    elif len(dskfs.free_granules(after)) != case["free"] - sum(case["sizes"]):
-                        bad(cell, "the batch did not take exactly its granules", case["free"] - sum(case["sizes"]), len(dskfs.free_granules(after)))
+                    elif len(dskfs.free_granules(after)) != case["free"] - sum(gsizes):
+                        bad(cell, "the batch did not take exactly its granules", case["free"] - sum(gsizes), len(dskfs.free_granules(after)))
             else:
                 if status == 0 or isinstance(status, str):
                     bad(cell, "a batch that does not fit was not refused", "exit != 0", "{} {}".format(status, out[-80:]))
